@@ -1,64 +1,344 @@
 (* Label_proofs.v -- lemmas about Label.v (C17).  Statements fixed; proofs below. *)
 From Grog Require Import Str Label.
 
+(* ------------------------------------------------------------------ helpers *)
+
+(* characters *)
+Lemma slash_neq_colon : ch_slash <> ch_colon.
+Proof. unfold ch_slash, ch_colon; discriminate. Qed.
+
+Lemma dot_neq_colon : ch_dot <> ch_colon.
+Proof. unfold ch_dot, ch_colon; discriminate. Qed.
+
+Lemma dot_neq_slash : ch_dot <> ch_slash.
+Proof. unfold ch_dot, ch_slash; discriminate. Qed.
+
+Lemma not_in_ellipsis c : ch_dot <> c -> ~ In c ellipsis.
+Proof. intros Hc [H|[H|[H|[]]]]; exact (Hc H). Qed.
+
+(* null *)
+Lemma null_true s : null s = true <-> s = [].
+Proof. destruct s as [|x s]; simpl; split; intro H; try reflexivity; discriminate. Qed.
+
+Lemma null_false s : null s = false <-> s <> [].
+Proof.
+  destruct s as [|x s]; simpl; split; intro H; try reflexivity; try discriminate.
+  exfalso; apply H; reflexivity.
+Qed.
+
+(* lists *)
+Lemma firstn_length_app (a b : str) : firstn (length a) (a ++ b) = a.
+Proof. induction a as [|x a IH]; simpl; [destruct b; reflexivity | rewrite IH; reflexivity]. Qed.
+
+Lemma not_in_firstn (c : ascii) i s : ~ In c s -> ~ In c (firstn i s).
+Proof.
+  intros Hn Hin. apply Hn. rewrite <- (firstn_skipn i s). apply in_or_app; left; exact Hin.
+Qed.
+
+Lemma not_in_app_l (c : ascii) a b : ~ In c (a ++ b) -> ~ In c a.
+Proof. intros Hn Hin. apply Hn. apply in_or_app; left; exact Hin. Qed.
+
+(* ends_with / drop_last / trim_slash *)
+Lemma ends_with_snoc c s : ends_with c (s ++ [c]) = true.
+Proof. unfold ends_with, last_char. rewrite rev_unit. apply Ascii.eqb_refl. Qed.
+
+Lemma drop_last_snoc s (c : ascii) : drop_last (s ++ [c]) = s.
+Proof. unfold drop_last. apply removelast_last. Qed.
+
+Lemma trim_slash_snoc s : trim_slash (s ++ [ch_slash]) = s.
+Proof. unfold trim_slash. rewrite ends_with_snoc. apply drop_last_snoc. Qed.
+
+Lemma trim_slash_id s : ends_with ch_slash s = false -> trim_slash s = s.
+Proof. intro H. unfold trim_slash. rewrite H. reflexivity. Qed.
+
+Lemma trim_slash_nil : trim_slash [] = [].
+Proof. reflexivity. Qed.
+
+Lemma trim_slash_prefix s : exists t, s = trim_slash s ++ t.
+Proof.
+  unfold trim_slash. destruct (ends_with ch_slash s) eqn:E.
+  - destruct s as [|x s].
+    + discriminate E.
+    + exists [last (x :: s) x]. unfold drop_last. apply app_removelast_last. discriminate.
+  - exists []. rewrite app_nil_r. reflexivity.
+Qed.
+
+Lemma trim_slash_not_in c s : ~ In c s -> ~ In c (trim_slash s).
+Proof.
+  intro Hn. destruct (trim_slash_prefix s) as [t Ht]. rewrite Ht in Hn.
+  exact (not_in_app_l _ _ _ Hn).
+Qed.
+
+(* has_prefix *)
+Lemma has_prefix_app_r p a b : has_prefix p a = true -> has_prefix p (a ++ b) = true.
+Proof.
+  intro H. apply has_prefix_spec in H as [r Hr]. subst a.
+  apply has_prefix_spec. exists (r ++ b). rewrite app_assoc. reflexivity.
+Qed.
+
+(* an occurrence of p cannot start before a character that is not in p and extend past it *)
+Lemma has_prefix_sep p s c t :
+  ~ In c p -> has_prefix p (s ++ c :: t) = true -> has_prefix p s = true.
+Proof.
+  revert s. induction p as [|x p IH]; intros s Hc H; [reflexivity|].
+  destruct s as [|y s].
+  - exfalso. simpl in H. apply andb_true_iff in H as [H _]. apply Ascii.eqb_eq in H.
+    apply Hc. left. exact H.
+  - simpl in H. apply andb_true_iff in H as [H1 H2]. simpl. rewrite H1. simpl.
+    apply IH; [|exact H2]. intro Hin. apply Hc. right. exact Hin.
+Qed.
+
+(* find_sub *)
+Lemma find_sub_eq p s :
+  find_sub p s =
+  if has_prefix p s then Some 0
+  else match s with [] => None | _ :: s' => option_map S (find_sub p s') end.
+Proof. destruct s; reflexivity. Qed.
+
+Lemma find_sub_none_prefix p a b : find_sub p (a ++ b) = None -> find_sub p a = None.
+Proof.
+  induction a as [|x a IH]; intro H.
+  - rewrite find_sub_eq. destruct (has_prefix p []) eqn:E; [|reflexivity].
+    destruct p as [|y p]; [|discriminate E].
+    rewrite find_sub_eq in H. simpl in H. discriminate H.
+  - change ((x :: a) ++ b) with (x :: a ++ b) in H. rewrite find_sub_eq in H. rewrite find_sub_eq.
+    destruct (has_prefix p (x :: a ++ b)) eqn:E; [discriminate H|].
+    destruct (find_sub p (a ++ b)) as [k|] eqn:F; [discriminate H|].
+    destruct (has_prefix p (x :: a)) eqn:E2.
+    + apply (has_prefix_app_r _ _ b) in E2.
+      change ((x :: a) ++ b) with (x :: a ++ b) in E2. congruence.
+    + rewrite (IH eq_refl). reflexivity.
+Qed.
+
+Lemma find_sub_firstn p s i :
+  p <> [] -> find_sub p s = Some i -> find_sub p (firstn i s) = None.
+Proof.
+  intros Hp. revert i. induction s as [|x s IH]; intros i H; rewrite find_sub_eq in H.
+  - destruct (has_prefix p []) eqn:E; [|discriminate H].
+    destruct p as [|y p]; [exfalso; apply Hp; reflexivity | discriminate E].
+  - destruct (has_prefix p (x :: s)) eqn:E.
+    + injection H as <-. cbn [firstn]. rewrite find_sub_eq.
+      destruct p as [|y p]; [exfalso; apply Hp; reflexivity | reflexivity].
+    + destruct (find_sub p s) as [k|] eqn:F; [|discriminate H].
+      simpl in H. injection H as <-.
+      change (firstn (S k) (x :: s)) with (x :: firstn k s). rewrite find_sub_eq.
+      destruct (has_prefix p (x :: firstn k s)) eqn:E2.
+      * apply (has_prefix_app_r _ _ (skipn k s)) in E2.
+        change ((x :: firstn k s) ++ skipn k s) with (x :: (firstn k s ++ skipn k s)) in E2.
+        rewrite firstn_skipn in E2. congruence.
+      * rewrite (IH k eq_refl). reflexivity.
+Qed.
+
+(* if c is not in p, p does not occur in s and t starts with p, then the first occurrence
+   of p in s ++ c :: t is right after c: an occurrence cannot span c *)
+Lemma find_sub_sep p s c t :
+  ~ In c p -> find_sub p s = None -> has_prefix p t = true ->
+  find_sub p (s ++ c :: t) = Some (length s + 1).
+Proof.
+  intros Hc. induction s as [|x s IH]; intros Hn Ht.
+  - rewrite find_sub_eq in Hn. destruct (has_prefix p []) eqn:E; [discriminate Hn|].
+    change ([] ++ c :: t) with (c :: t). rewrite find_sub_eq.
+    destruct (has_prefix p (c :: t)) eqn:E2.
+    + exfalso. destruct p as [|y p]; [discriminate E|].
+      simpl in E2. apply andb_true_iff in E2 as [E2 _]. apply Ascii.eqb_eq in E2.
+      apply Hc. left. exact E2.
+    + rewrite find_sub_eq, Ht. reflexivity.
+  - rewrite find_sub_eq in Hn.
+    destruct (has_prefix p (x :: s)) eqn:E; [discriminate Hn|].
+    destruct (find_sub p s) as [k|] eqn:F; [discriminate Hn|].
+    change ((x :: s) ++ c :: t) with (x :: (s ++ c :: t)). rewrite find_sub_eq.
+    destruct (has_prefix p (x :: s ++ c :: t)) eqn:E2.
+    + apply (has_prefix_sep p (x :: s) c t Hc) in E2. congruence.
+    + rewrite (IH eq_refl Ht). reflexivity.
+Qed.
+
+Lemma find_sub_trim_none s : find_sub ellipsis s = None -> find_sub ellipsis (trim_slash s) = None.
+Proof.
+  intro H. destruct (trim_slash_prefix s) as [t Ht]. rewrite Ht in H.
+  exact (find_sub_none_prefix _ _ _ H).
+Qed.
+
+Lemma ellipsis_nonempty : ellipsis <> [].
+Proof. discriminate. Qed.
+
+(* valid_name *)
+Lemma valid_name_not_null n : valid_name n = true -> null n = false.
+Proof. destruct n as [|x n]; intro H; [vm_compute in H; discriminate H | reflexivity]. Qed.
+
 (* ------------------------------------------------------------------ labels *)
 
+(* the "//" branch of parse_label *)
+Lemma parse_label_abs cur body :
+  parse_label cur (dslash ++ body) =
+  match split_first ch_colon body with
+  | None =>
+      if null body then None
+      else if valid_name (after_last ch_slash body)
+           then Some (mkLabel body (after_last ch_slash body)) else None
+  | Some (pkg, name) =>
+      if null name then None
+      else if valid_name name then Some (mkLabel pkg name) else None
+  end.
+Proof. reflexivity. Qed.
+
 Lemma parse_label_wf cur s l : parse_label cur s = Some l -> valid_name (lname l) = true.
-Proof. Admitted.
+Proof.
+  intro H. unfold parse_label in H. destruct s as [|c name]; [discriminate H|].
+  destruct (Ascii.eqb c ch_colon).
+  - destruct (null name); [discriminate H|].
+    destruct (valid_name name) eqn:V; [|discriminate H].
+    injection H as <-. exact V.
+  - destruct (has_prefix dslash (c :: name)); [|discriminate H].
+    destruct (split_first ch_colon (skipn 2 (c :: name))) as [[pkg nm]|].
+    + destruct (null nm); [discriminate H|].
+      destruct (valid_name nm) eqn:V; [|discriminate H].
+      injection H as <-. exact V.
+    + destruct (null (skipn 2 (c :: name))); [discriminate H|].
+      cbv zeta in H.
+      destruct (valid_name (after_last ch_slash (skipn 2 (c :: name)))) eqn:V; [|discriminate H].
+      injection H as <-. exact V.
+Qed.
 
 (* for "//" labels the package is the text before the first colon (or the whole body) *)
 Lemma parse_label_abs_pkg cur s l :
   has_prefix dslash s = true -> parse_label cur s = Some l -> ~ In ch_colon (lpkg l).
-Proof. Admitted.
+Proof.
+  intros Hp H. apply has_prefix_spec in Hp as [body Hs]. subst s.
+  rewrite parse_label_abs in H.
+  destruct (split_first ch_colon body) as [[pkg nm]|] eqn:S.
+  - apply split_first_some in S as [_ Hn].
+    destruct (null nm); [discriminate H|].
+    destruct (valid_name nm); [|discriminate H].
+    injection H as <-. exact Hn.
+  - apply split_first_none in S.
+    destruct (null body); [discriminate H|].
+    destruct (valid_name (after_last ch_slash body)); [|discriminate H].
+    injection H as <-. exact S.
+Qed.
 
 Theorem label_roundtrip cur s l :
   parse_label cur s = Some l -> ~ In ch_colon (lpkg l) ->
   forall cur', parse_label cur' (print_label l) = Some l.
-Proof. Admitted.
+Proof.
+  intros H Hc cur'. pose proof (parse_label_wf _ _ _ H) as V.
+  destruct l as [pkg name]. cbn [lpkg lname] in Hc, V.
+  unfold print_label. cbn [lpkg lname].
+  rewrite parse_label_abs, (split_first_app _ _ _ Hc).
+  rewrite (valid_name_not_null _ V), V. reflexivity.
+Qed.
 
 Theorem label_roundtrip_abs cur s l :
   has_prefix dslash s = true -> parse_label cur s = Some l ->
   forall cur', parse_label cur' (print_label l) = Some l.
-Proof. Admitted.
+Proof.
+  intros Hp H. exact (label_roundtrip cur s l H (parse_label_abs_pkg cur s l Hp H)).
+Qed.
 
 (* "//a/b" means "//a/b:b" *)
 Theorem label_shorthand cur p :
   ~ In ch_colon p ->
   parse_label cur (dslash ++ p) = parse_label cur (dslash ++ p ++ ch_colon :: after_last ch_slash p).
-Proof. Admitted.
+Proof.
+  intros Hc. rewrite !parse_label_abs.
+  rewrite (split_first_app _ _ _ Hc). rewrite (proj2 (split_first_none _ _) Hc).
+  destruct p as [|x p'].
+  - reflexivity.
+  - cbn [null].
+    destruct (valid_name (after_last ch_slash (x :: p'))) eqn:V.
+    + rewrite (valid_name_not_null _ V). reflexivity.
+    + destruct (null (after_last ch_slash (x :: p'))); reflexivity.
+Qed.
 
 Theorem label_shorthand_value cur p :
   ~ In ch_colon p -> valid_name (after_last ch_slash p) = true ->
   parse_label cur (dslash ++ p) = Some (mkLabel p (after_last ch_slash p)).
-Proof. Admitted.
+Proof.
+  intros Hc V. rewrite parse_label_abs. rewrite (proj2 (split_first_none _ _) Hc).
+  destruct p as [|x p'].
+  - vm_compute in V. discriminate V.
+  - cbn [null]. rewrite V. reflexivity.
+Qed.
 
 (* ":x" resolves against the current package ("." is the root package) *)
 Theorem label_relative cur x :
   parse_label cur (ch_colon :: x) =
   if valid_name x then Some (mkLabel (if str_eqb cur [ch_dot] then [] else cur) x) else None.
-Proof. Admitted.
+Proof.
+  unfold parse_label. rewrite Ascii.eqb_refl.
+  destruct (null x) eqn:N; [|reflexivity].
+  apply null_true in N. subst x. reflexivity.
+Qed.
 
 (* ------------------------------------------------------------------ matching *)
 
 Definition name_ok (p : pattern) (l : label) : Prop :=
   ptarget p = [] \/ ptarget p = all_lit \/ ptarget p = ellipsis \/ lname l = ptarget p.
 
+Lemma name_ok_b p l :
+  (null (ptarget p) || str_eqb (ptarget p) all_lit || str_eqb (ptarget p) ellipsis
+   || str_eqb (lname l) (ptarget p)) = true <-> name_ok p l.
+Proof.
+  unfold name_ok. split.
+  - intro H. apply orb_true_iff in H as [H|H]; [|right; right; right; apply str_eqb_eq; exact H].
+    apply orb_true_iff in H as [H|H]; [|right; right; left; apply str_eqb_eq; exact H].
+    apply orb_true_iff in H as [H|H]; [|right; left; apply str_eqb_eq; exact H].
+    left. apply null_true. exact H.
+  - intros [H|[H|[H|H]]].
+    + apply null_true in H. rewrite H. reflexivity.
+    + apply str_eqb_eq in H. rewrite H. rewrite orb_true_r. reflexivity.
+    + apply str_eqb_eq in H. rewrite H. rewrite orb_true_r. reflexivity.
+    + apply str_eqb_eq in H. rewrite H. rewrite orb_true_r. reflexivity.
+Qed.
+
 Theorem matches_recursive p l :
   prec p = true ->
   (matches p l = true <->
    (pprefix p = [] \/ lpkg l = pprefix p \/ exists r, lpkg l = pprefix p ++ ch_slash :: r)
    /\ name_ok p l).
-Proof. Admitted.
+Proof.
+  intro Hrec. unfold matches. rewrite Hrec. split.
+  - intro H. apply andb_true_iff in H as [Hpk Hnm]. split; [|apply name_ok_b; exact Hnm].
+    destruct (null (pprefix p)) eqn:N.
+    + left. apply null_true. exact N.
+    + right. apply orb_true_iff in Hpk as [Hpk|Hpk].
+      * left. apply str_eqb_eq. exact Hpk.
+      * right. apply has_prefix_spec in Hpk as [r Hr]. exists r.
+        rewrite Hr, <- app_assoc. reflexivity.
+  - intros [Hpk Hnm]. apply andb_true_iff. split; [|apply name_ok_b; exact Hnm].
+    destruct (null (pprefix p)) eqn:N; [reflexivity|].
+    destruct Hpk as [Hpk|[Hpk|[r Hr]]].
+    + apply null_false in N. contradiction.
+    + apply orb_true_iff. left. apply str_eqb_eq. exact Hpk.
+    + apply orb_true_iff. right. apply has_prefix_spec. exists r.
+      rewrite Hr, <- app_assoc. reflexivity.
+Qed.
 
 (* never a sibling such as p2 *)
 Theorem matches_never_sibling p l c r :
   prec p = true -> pprefix p <> [] -> lpkg l = pprefix p ++ c :: r -> c <> ch_slash ->
   matches p l = false.
-Proof. Admitted.
+Proof.
+  intros Hrec Hne Hl Hc. unfold matches. rewrite Hrec.
+  rewrite (proj2 (null_false _) Hne).
+  assert (E1 : str_eqb (lpkg l) (pprefix p) = false).
+  { apply str_eqb_neq. intro E. rewrite Hl in E.
+    apply (f_equal (@length ascii)) in E. rewrite app_length in E. simpl in E. lia. }
+  assert (E2 : has_prefix (pprefix p ++ [ch_slash]) (lpkg l) = false).
+  { destruct (has_prefix (pprefix p ++ [ch_slash]) (lpkg l)) eqn:E; [|reflexivity].
+    exfalso. apply has_prefix_spec in E as [r' Hr']. rewrite Hl, <- app_assoc in Hr'.
+    apply app_inv_head in Hr'. injection Hr' as Hcc _. exact (Hc Hcc). }
+  rewrite E1, E2. reflexivity.
+Qed.
 
 Theorem matches_exact p l :
   prec p = false -> (matches p l = true <-> lpkg l = pprefix p /\ name_ok p l).
-Proof. Admitted.
+Proof.
+  intro Hrec. unfold matches. rewrite Hrec. split.
+  - intro H. apply andb_true_iff in H as [Hpk Hnm].
+    split; [apply str_eqb_eq; exact Hpk | apply name_ok_b; exact Hnm].
+  - intros [Hpk Hnm]. apply andb_true_iff.
+    split; [apply str_eqb_eq; exact Hpk | apply name_ok_b; exact Hnm].
+Qed.
 
 (* ------------------------------------------------------------------ parsing patterns *)
 
@@ -66,47 +346,183 @@ Proof. Admitted.
 Definition plain_pkg (pre : str) : Prop :=
   ~ In ch_colon pre /\ find_sub ellipsis pre = None /\ ends_with ch_slash pre = false.
 
+(* what the "//" branch of parse_pattern returns once the package part [pp], the target part
+   [tp] and the has-colon flag [hc] are known *)
+Definition abs_result (pp tp : str) (hc : bool) : option pattern :=
+  match find_sub ellipsis pp with
+  | Some i =>
+      if i + 3 <? length pp then None
+      else Some (mkPat (trim_slash (firstn i pp)) tp true)
+  | None =>
+      if hc then Some (mkPat (trim_slash pp) tp false)
+      else
+        let tp' := after_last ch_slash pp in
+        if null tp' then None
+        else Some (mkPat (trim_slash pp) tp' false)
+  end.
+
+Lemma parse_pattern_abs cur body :
+  parse_pattern cur (dslash ++ body) =
+  match split_first ch_colon body with
+  | Some (a, b) => if null b then None else abs_result a b true
+  | None => abs_result body [] false
+  end.
+Proof.
+  unfold parse_pattern.
+  change (has_prefix dslash (dslash ++ body)) with true.
+  change (skipn 2 (dslash ++ body)) with body.
+  cbv iota.
+  destruct (split_first ch_colon body) as [[a b]|]; reflexivity.
+Qed.
+
+Lemma parse_pattern_abs_colon cur pp tp :
+  ~ In ch_colon pp ->
+  parse_pattern cur (dslash ++ pp ++ ch_colon :: tp) =
+  if null tp then None else abs_result pp tp true.
+Proof.
+  intro Hc. rewrite parse_pattern_abs, (split_first_app _ _ _ Hc). reflexivity.
+Qed.
+
+Lemma parse_pattern_abs_nocolon cur pp :
+  ~ In ch_colon pp -> parse_pattern cur (dslash ++ pp) = abs_result pp [] false.
+Proof.
+  intro Hc. rewrite parse_pattern_abs, (proj2 (split_first_none _ _) Hc). reflexivity.
+Qed.
+
+(* the package part printed for a recursive pattern is parsed back to the same prefix *)
+Lemma rec_pkg_part pre :
+  ~ In ch_colon pre -> find_sub ellipsis pre = None ->
+  let pp := pre ++ (if null pre then ellipsis else ch_slash :: ellipsis) in
+  ~ In ch_colon pp /\
+  exists i, find_sub ellipsis pp = Some i /\ (i + 3 <? length pp) = false /\
+            trim_slash (firstn i pp) = pre.
+Proof.
+  intros Hc Hf pp. subst pp. destruct (null pre) eqn:N.
+  - apply null_true in N. subst pre. split.
+    + apply not_in_ellipsis, dot_neq_colon.
+    + exists 0. split; [reflexivity|]. split; reflexivity.
+  - split.
+    + intro Hin. apply in_app_or in Hin as [Hin|[Hin|Hin]].
+      * exact (Hc Hin).
+      * exact (slash_neq_colon Hin).
+      * exact (not_in_ellipsis _ dot_neq_colon Hin).
+    + exists (length pre + 1). split; [|split].
+      * apply find_sub_sep; [apply not_in_ellipsis, dot_neq_slash | exact Hf | reflexivity].
+      * apply Nat.ltb_ge. rewrite app_length.
+        change (length (ch_slash :: ellipsis)) with 4. lia.
+      * change (pre ++ ch_slash :: ellipsis) with (pre ++ [ch_slash] ++ ellipsis).
+        rewrite app_assoc.
+        replace (length pre + 1) with (length (pre ++ [ch_slash]))
+          by (rewrite app_length; reflexivity).
+        rewrite firstn_length_app. apply trim_slash_snoc.
+Qed.
+
+Lemma abs_result_rec pre tp :
+  ~ In ch_colon pre -> find_sub ellipsis pre = None ->
+  abs_result (pre ++ (if null pre then ellipsis else ch_slash :: ellipsis)) tp true
+  = Some (mkPat pre tp true) /\
+  abs_result (pre ++ (if null pre then ellipsis else ch_slash :: ellipsis)) tp false
+  = Some (mkPat pre tp true).
+Proof.
+  intros Hc Hf. destruct (rec_pkg_part pre Hc Hf) as [_ [i [F [L T]]]].
+  unfold abs_result. rewrite F, L, T. split; reflexivity.
+Qed.
+
+Lemma abs_result_plain pre tp :
+  find_sub ellipsis pre = None -> ends_with ch_slash pre = false ->
+  abs_result pre tp true = Some (mkPat pre tp false).
+Proof.
+  intros Hf He. unfold abs_result. rewrite Hf, (trim_slash_id _ He). reflexivity.
+Qed.
+
 Theorem parse_recursive cur pre :
   plain_pkg pre -> pre <> [] ->
   parse_pattern cur (dslash ++ pre ++ ch_slash :: ellipsis) = Some (mkPat pre [] true).
-Proof. Admitted.
+Proof.
+  intros [Hc [Hf He]] Hne.
+  destruct (rec_pkg_part pre Hc Hf) as [Hc' _].
+  destruct (abs_result_rec pre [] Hc Hf) as [_ R].
+  rewrite (proj2 (null_false _) Hne) in Hc', R.
+  rewrite (parse_pattern_abs_nocolon _ _ Hc'). exact R.
+Qed.
 
 Theorem parse_root_recursive cur :
   parse_pattern cur (dslash ++ ellipsis) = Some (mkPat [] [] true).
-Proof. Admitted.
+Proof. reflexivity. Qed.
 
 Theorem parse_with_name cur pre n :
   plain_pkg pre -> n <> [] ->
   parse_pattern cur (dslash ++ pre ++ ch_colon :: n) = Some (mkPat pre n false).
-Proof. Admitted.
+Proof.
+  intros [Hc [Hf He]] Hne.
+  rewrite (parse_pattern_abs_colon _ _ _ Hc), (proj2 (null_false _) Hne).
+  apply abs_result_plain; assumption.
+Qed.
 
 (* "//p/..." matches exactly package p and the packages below it *)
 Theorem recursive_pattern_boundary cur pre l :
   plain_pkg pre -> pre <> [] ->
   exists p, parse_pattern cur (dslash ++ pre ++ ch_slash :: ellipsis) = Some p /\
     (matches p l = true <-> lpkg l = pre \/ exists r, lpkg l = pre ++ ch_slash :: r).
-Proof. Admitted.
+Proof.
+  intros Hpl Hne. exists (mkPat pre [] true). split; [apply parse_recursive; assumption|].
+  rewrite (matches_recursive (mkPat pre [] true) l eq_refl).
+  cbn [pprefix]. unfold name_ok. cbn [ptarget].
+  split.
+  - intros [[H|H] _]; [contradiction | exact H].
+  - intro H. split; [right; exact H | left; reflexivity].
+Qed.
 
 (* "//p:all" matches exactly package p *)
 Theorem all_pattern_exact_package cur pre l :
   plain_pkg pre ->
   exists p, parse_pattern cur (dslash ++ pre ++ ch_colon :: all_lit) = Some p /\
     (matches p l = true <-> lpkg l = pre).
-Proof. Admitted.
+Proof.
+  intros Hpl. exists (mkPat pre all_lit false).
+  split; [apply parse_with_name; [assumption | discriminate]|].
+  rewrite (matches_exact (mkPat pre all_lit false) l eq_refl).
+  cbn [pprefix]. unfold name_ok. cbn [ptarget].
+  split.
+  - intros [H _]; exact H.
+  - intro H. split; [exact H | right; left; reflexivity].
+Qed.
 
 (* a name suffix restricts by exact target name *)
 Theorem name_pattern_exact cur pre n l :
   plain_pkg pre -> n <> [] -> n <> all_lit -> n <> ellipsis ->
   exists p, parse_pattern cur (dslash ++ pre ++ ch_colon :: n) = Some p /\
     (matches p l = true <-> lpkg l = pre /\ lname l = n).
-Proof. Admitted.
+Proof.
+  intros Hpl Hn1 Hn2 Hn3. exists (mkPat pre n false).
+  split; [apply parse_with_name; assumption|].
+  rewrite (matches_exact (mkPat pre n false) l eq_refl).
+  cbn [pprefix]. unfold name_ok. cbn [ptarget].
+  split.
+  - intros [H [Hk|[Hk|[Hk|Hk]]]]; try contradiction. split; assumption.
+  - intros [H Hk]. split; [exact H | right; right; right; exact Hk].
+Qed.
 
 Theorem recursive_name_pattern cur pre n l :
   plain_pkg pre -> pre <> [] -> n <> [] -> n <> all_lit -> n <> ellipsis ->
   exists p, parse_pattern cur (dslash ++ pre ++ ch_slash :: ellipsis ++ ch_colon :: n) = Some p /\
     (matches p l = true <->
      (lpkg l = pre \/ exists r, lpkg l = pre ++ ch_slash :: r) /\ lname l = n).
-Proof. Admitted.
+Proof.
+  intros [Hc [Hf He]] Hne Hn1 Hn2 Hn3. exists (mkPat pre n true). split.
+  - destruct (rec_pkg_part pre Hc Hf) as [Hc' _].
+    destruct (abs_result_rec pre n Hc Hf) as [R _].
+    rewrite (proj2 (null_false _) Hne) in Hc', R.
+    change (dslash ++ pre ++ ch_slash :: ellipsis ++ ch_colon :: n)
+      with (dslash ++ pre ++ (ch_slash :: ellipsis) ++ ch_colon :: n).
+    rewrite (app_assoc pre).
+    rewrite (parse_pattern_abs_colon _ _ _ Hc'), (proj2 (null_false _) Hn1). exact R.
+  - rewrite (matches_recursive (mkPat pre n true) l eq_refl).
+    cbn [pprefix]. unfold name_ok. cbn [ptarget].
+    split.
+    + intros [[H|H] [Hk|[Hk|[Hk|Hk]]]]; try contradiction. split; assumption.
+    + intros [H Hk]. split; [right; exact H | right; right; right; exact Hk].
+Qed.
 
 (* ------------------------------------------------------------------ print / re-parse *)
 
@@ -115,10 +531,110 @@ Definition reprintable (p : pattern) : bool :=
   prec p || (negb (mem_ch ch_colon (pprefix p)) && negb (contains ellipsis (pprefix p))
              && negb (ends_with ch_slash (pprefix p))).
 
+(* what a successful absolute parse guarantees about the resulting pattern *)
+Lemma abs_result_shape pp tp hc p :
+  ~ In ch_colon pp -> (hc = true -> tp <> []) -> abs_result pp tp hc = Some p ->
+  ~ In ch_colon (pprefix p) /\ find_sub ellipsis (pprefix p) = None /\
+  (prec p = false -> ptarget p <> []).
+Proof.
+  intros Hc Htp H. unfold abs_result in H.
+  destruct (find_sub ellipsis pp) as [i|] eqn:F.
+  - destruct (i + 3 <? length pp); [discriminate H|].
+    injection H as <-. cbn [pprefix ptarget prec]. split; [|split].
+    + apply trim_slash_not_in, not_in_firstn, Hc.
+    + apply find_sub_trim_none. exact (find_sub_firstn _ _ _ ellipsis_nonempty F).
+    + discriminate.
+  - destruct hc.
+    + injection H as <-. cbn [pprefix ptarget prec]. split; [|split].
+      * apply trim_slash_not_in, Hc.
+      * apply find_sub_trim_none, F.
+      * intros _. apply Htp. reflexivity.
+    + cbv zeta in H. destruct (null (after_last ch_slash pp)) eqn:N; [discriminate H|].
+      injection H as <-. cbn [pprefix ptarget prec]. split; [|split].
+      * apply trim_slash_not_in, Hc.
+      * apply find_sub_trim_none, F.
+      * intros _. apply null_false. exact N.
+Qed.
+
+Lemma parse_pattern_shape cur s p :
+  parse_pattern cur s = Some p ->
+  (prec p = false -> ptarget p <> []) /\
+  (prec p = true \/ has_prefix dslash s = true ->
+   ~ In ch_colon (pprefix p) /\ find_sub ellipsis (pprefix p) = None).
+Proof.
+  intro H. destruct (has_prefix dslash s) eqn:Hp.
+  - apply has_prefix_spec in Hp as [body Hs]. subst s. rewrite parse_pattern_abs in H.
+    assert (G : ~ In ch_colon (pprefix p) /\ find_sub ellipsis (pprefix p) = None /\
+                (prec p = false -> ptarget p <> [])).
+    { destruct (split_first ch_colon body) as [[a b]|] eqn:S.
+      - apply split_first_some in S as [_ Hn].
+        destruct (null b) eqn:N; [discriminate H|].
+        apply (abs_result_shape a b true p Hn); [|exact H].
+        intros _. apply null_false. exact N.
+      - apply split_first_none in S.
+        apply (abs_result_shape body [] false p S); [|exact H].
+        intro Hd. discriminate Hd. }
+    destruct G as [G1 [G2 G3]]. split; [exact G3|]. intros _. split; assumption.
+  - unfold parse_pattern in H. rewrite Hp in H.
+    destruct (split_first ch_colon s) as [[a name]|]; [|discriminate H].
+    assert (G : p = mkPat cur name false /\ name <> []).
+    { destruct (str_eqb name ellipsis) eqn:E.
+      - injection H as <-. split; [reflexivity|].
+        apply str_eqb_eq in E. subst name. discriminate.
+      - destruct (valid_name name) eqn:V; [|discriminate H].
+        injection H as <-. split; [reflexivity|].
+        apply null_false. exact (valid_name_not_null _ V). }
+    destruct G as [-> Hne]. cbn [pprefix ptarget prec]. split.
+    + intros _. exact Hne.
+    + intros [Hd|Hd]; discriminate Hd.
+Qed.
+
+Lemma reparse_core pre tp rc cur' :
+  ~ In ch_colon pre -> find_sub ellipsis pre = None ->
+  (rc = false -> tp <> [] /\ ends_with ch_slash pre = false) ->
+  parse_pattern cur' (print_pattern (mkPat pre tp rc)) = Some (mkPat pre tp rc).
+Proof.
+  intros Hc Hf Hnr. unfold print_pattern. cbn [pprefix ptarget prec]. destruct rc.
+  - destruct (rec_pkg_part pre Hc Hf) as [Hc' _].
+    destruct (abs_result_rec pre tp Hc Hf) as [R1 R2].
+    destruct tp as [|t tp].
+    + cbn [null]. rewrite app_nil_r.
+      rewrite (parse_pattern_abs_nocolon _ _ Hc'). exact R2.
+    + cbn [null]. rewrite (app_assoc pre).
+      rewrite (parse_pattern_abs_colon _ _ _ Hc'). cbn [null]. exact R1.
+  - destruct (Hnr eq_refl) as [Hne He].
+    rewrite app_nil_l. rewrite (proj2 (null_false _) Hne).
+    rewrite (parse_pattern_abs_colon _ _ _ Hc), (proj2 (null_false _) Hne).
+    apply abs_result_plain; assumption.
+Qed.
+
+Lemma reprintable_false_facts p :
+  prec p = false -> reprintable p = true ->
+  ~ In ch_colon (pprefix p) /\ find_sub ellipsis (pprefix p) = None /\
+  ends_with ch_slash (pprefix p) = false.
+Proof.
+  intros Hrec H. unfold reprintable in H. rewrite Hrec in H. rewrite orb_false_l in H.
+  apply andb_true_iff in H as [H H3]. apply andb_true_iff in H as [H1 H2].
+  apply negb_true_iff in H1, H2, H3. split; [|split].
+  - apply mem_ch_false. exact H1.
+  - unfold contains in H2. destruct (find_sub ellipsis (pprefix p)); [discriminate H2|reflexivity].
+  - exact H3.
+Qed.
+
 Theorem pattern_reparse cur s p :
   parse_pattern cur s = Some p -> reprintable p = true ->
   forall cur', parse_pattern cur' (print_pattern p) = Some p.
-Proof. Admitted.
+Proof.
+  intros H Hr cur'. destruct (parse_pattern_shape _ _ _ H) as [S1 S2].
+  destruct p as [pre tp rc]. cbn [pprefix ptarget prec] in S1, S2.
+  destruct rc.
+  - destruct (S2 (or_introl eq_refl)) as [Hc Hf].
+    apply reparse_core; [exact Hc | exact Hf | intro Hd; discriminate Hd].
+  - destruct (reprintable_false_facts (mkPat pre tp false) eq_refl Hr) as [Hc [Hf He]].
+    cbn [pprefix] in Hc, Hf, He.
+    apply reparse_core; [exact Hc | exact Hf |].
+    intros _. split; [exact (S1 eq_refl) | exact He].
+Qed.
 
 (* every absolute pattern (starting with "//") is covered unless it is non-recursive and its
    package part ends in two slashes *)
@@ -126,13 +642,21 @@ Theorem pattern_reparse_abs cur s p :
   has_prefix dslash s = true -> parse_pattern cur s = Some p ->
   ends_with ch_slash (pprefix p) = false ->
   forall cur', parse_pattern cur' (print_pattern p) = Some p.
-Proof. Admitted.
+Proof.
+  intros Hp H He cur'. destruct (parse_pattern_shape _ _ _ H) as [S1 S2].
+  destruct (S2 (or_intror Hp)) as [Hc Hf].
+  destruct p as [pre tp rc]. cbn [pprefix ptarget prec] in S1, Hc, Hf, He.
+  apply reparse_core; [exact Hc | exact Hf |].
+  intros ->. split; [exact (S1 eq_refl) | exact He].
+Qed.
 
 Corollary pattern_reparse_matches cur s p :
   parse_pattern cur s = Some p -> reprintable p = true ->
   forall cur', exists p', parse_pattern cur' (print_pattern p) = Some p' /\
     forall l, matches p' l = matches p l.
-Proof. Admitted.
+Proof.
+  intros H Hr cur'. exists p. split; [exact (pattern_reparse cur s p H Hr cur') | reflexivity].
+Qed.
 
 (* without the guard the statement is false: "//a//:x" *)
 Definition witness_pat : str :=
@@ -141,16 +665,30 @@ Definition witness_pat : str :=
 Theorem pattern_reparse_unguarded_refuted :
   exists p p' l, parse_pattern [] witness_pat = Some p /\
     parse_pattern [] (print_pattern p) = Some p' /\ matches p l <> matches p' l.
-Proof. Admitted.
+Proof.
+  exists (mkPat ["a"; "/"]%char ["x"]%char false),
+         (mkPat ["a"]%char ["x"]%char false),
+         (mkLabel ["a"]%char ["x"]%char).
+  split; [vm_compute; reflexivity|]. split; [vm_compute; reflexivity|].
+  vm_compute. discriminate.
+Qed.
 
 (* non-vacuity *)
 Example label_roundtrip_nonvacuous :
   exists l, parse_label [] (dslash ++ ["a"; "/"; "b"]%char) = Some l /\ ~ In ch_colon (lpkg l).
-Proof. Admitted.
+Proof.
+  exists (mkLabel ["a"; "/"; "b"]%char ["b"]%char). split; [vm_compute; reflexivity|].
+  cbn [lpkg]. intros [H|[H|[H|[]]]]; vm_compute in H; discriminate H.
+Qed.
 
 Example plain_pkg_nonvacuous : plain_pkg ["a"; "/"; "b"]%char.
-Proof. Admitted.
+Proof.
+  split; [|split; vm_compute; reflexivity].
+  intros [H|[H|[H|[]]]]; vm_compute in H; discriminate H.
+Qed.
 
 Example reprintable_nonvacuous :
   exists p, parse_pattern ["c"]%char [ch_colon; "x"%char] = Some p /\ reprintable p = true.
-Proof. Admitted.
+Proof.
+  exists (mkPat ["c"]%char ["x"]%char false). split; vm_compute; reflexivity.
+Qed.
